@@ -5,6 +5,7 @@ let () =
   | [ _; "segments"; path ] -> Drv_segments.run path
   | [ _; "recv"; path ] -> Drv_tx.run_recv path
   | [ _; "send"; path ] -> Drv_tx.run_send path
+  | [ _; "link"; path ] -> Drv_zlink.run path
   | [ _; "checksum"; path ] -> Drv_checksum.run path
   | [ _; "path"; path ] -> Drv_path.run path
   | [ _; "udp"; path ] -> Drv_udp.run path
